@@ -519,6 +519,9 @@ func (c *Ctx) Bin(op Op, a, b *Term) *Term {
 		if b.IsConst() && b.Val == 0 {
 			return c.False
 		}
+		if a.IsConst() && a.Val == mask(w) {
+			return c.False
+		}
 		// zext(x) < k  where k > max(x)
 		if b.IsConst() && a.Op == OpZext && b.Val > mask(a.Args[0].Sort) {
 			return c.True
@@ -533,27 +536,8 @@ func (c *Ctx) Bin(op Op, a, b *Term) *Term {
 			return c.Bin(OpUlt, c.BV(a.Val, b.Args[0].Sort), b.Args[0])
 		}
 	case OpUle:
-		if a == b {
-			return c.True
-		}
-		if a.IsConst() && a.Val == 0 {
-			return c.True
-		}
-		if b.IsConst() && b.Val == mask(w) {
-			return c.True
-		}
-		if b.IsConst() && a.Op == OpZext {
-			if b.Val >= mask(a.Args[0].Sort) {
-				return c.True
-			}
-			return c.Bin(OpUle, a.Args[0], c.BV(b.Val, a.Args[0].Sort))
-		}
-		if a.IsConst() && b.Op == OpZext {
-			if a.Val > mask(b.Args[0].Sort) {
-				return c.False
-			}
-			return c.Bin(OpUle, c.BV(a.Val, b.Args[0].Sort), b.Args[0])
-		}
+		// canonical form: a <= b  ==  not (b < a)
+		return c.Not(c.Bin(OpUlt, b, a))
 	case OpSlt:
 		if a == b {
 			return c.False
@@ -563,12 +547,7 @@ func (c *Ctx) Bin(op Op, a, b *Term) *Term {
 			return c.Bin(OpUlt, a, b)
 		}
 	case OpSle:
-		if a == b {
-			return c.True
-		}
-		if za, zb := nonNeg(a), nonNeg(b); za && zb {
-			return c.Bin(OpUle, a, b)
-		}
+		return c.Not(c.Bin(OpSlt, b, a))
 	}
 	return c.mk(&Term{Op: op, Sort: rs, Args: []*Term{a, b}})
 }
